@@ -100,7 +100,7 @@ func (db *RockDB) hSetField(ts int64, checkNX bool, hkey []byte, field []byte, v
 		slow.LogLargeCollection(int(newNum), slow.NewSlowLogInfo(string(table), string(hkey), "hash"))
 		if newNum > collectionLengthForMetric {
 			metric.CollectionLenDist.With(ps.Labels{
-				"table": string(table),
+				"table": metric.LabelValue(string(table)),
 			}).Observe(float64(newNum))
 		}
 	}
@@ -266,7 +266,7 @@ func (db *RockDB) HMset(ts int64, key []byte, args ...common.KVRecord) error {
 	slow.LogLargeCollection(int(newNum), slow.NewSlowLogInfo(string(table), string(key), "hash"))
 	if newNum > collectionLengthForMetric {
 		metric.CollectionLenDist.With(ps.Labels{
-			"table": string(table),
+			"table": metric.LabelValue(string(table)),
 		}).Observe(float64(newNum))
 	}
 
